@@ -262,4 +262,193 @@ theorem rs_loop (J : Int) (rs size : Nat) (tmo : Option Int) (hto : TOk J tmo) (
               simp [h5, h2, h3, h4, len, hge, hltI, hn, mnet_truthy_some, mnet_time, mnet_fsub, mnet_fle, mnet_fzero,
                 mnet_settimeout, Blk.call, mnet_recv, h1, hw1, hlate, ht0, hnle, unwrap, RsLoopPost, join_snoc, settle, hw3]
 
+/-- more fuel changes nothing once the model's loop has an answer -/
+theorem recvSizeLoop_mono (rs size : Nat) : ∀ (n : Nat) (acc : Bytes) (total : Nat) (nxt : Bytes) (script : List Ev),
+    (recvSizeLoop rs size n acc total nxt script).1 ≠ .fuel →
+    ∀ k, recvSizeLoop rs size (n + k) acc total nxt script = recvSizeLoop rs size n acc total nxt script := by
+  intro n
+  induction n with
+  | zero => intro acc total nxt script h; simp [recvSizeLoop] at h
+  | succ n ih =>
+    intro acc total nxt script h k
+    rw [show n + 1 + k = (n + k) + 1 by omega]
+    rw [recvSizeLoop] at h ⊢
+    rw [recvSizeLoop]
+    by_cases hn : nxt = []
+    · simp [hn]
+    · by_cases hge : total + nxt.length ≥ size
+      · simp [hn, hge]
+      · simp only [hn, hge, if_false] at h ⊢
+        cases hsr : sockRecv rs script with
+        | timeout r => simp
+        | data d r =>
+          simp only [hsr] at h ⊢
+          exact ih _ _ _ _ h k
+
+theorem recvSizeLoop_ne_fuel (rs size : Nat) (hrs : 0 < rs) (nxt : Bytes) (script : List Ev)
+    (h : nxt = [] → pending script = []) :
+    (recvSizeLoop rs size (measure script + 2) [] 0 nxt script).1 ≠ .fuel := by
+  have := recvSizeLoop_ok rs size hrs (measure script + 2) [] 0 nxt script rfl (Or.inr rfl) h (by split <;> omega)
+  intro hf
+  rcases this with ⟨a, _⟩ | ⟨_, b, _⟩
+  · rw [hf] at a; cases a
+  · rw [hf] at b
+    unfold specSize at b
+    split at b <;> cases b
+
+/-- how a fault of the wrapped socket surfaces at the caller: `socket.timeout` becomes the module's `Timeout`, anything
+    else passes through -/
+theorem callerFault_of_raw : ∀ (s : List NEv),
+    (rawFault s = .sockTimeout ∧ callerFault s = .timeout) ∨ (∃ t, rawFault s = .osError t ∧ callerFault s = .osError t) := by
+  intro s
+  induction s with
+  | nil => simp [rawFault, callerFault]
+  | cons e r ih => cases e <;> simp [rawFault, callerFault, ih]
+
+/-- the caller-visible outcome a result of the model stands for; `flt` = what a fault surfaces as -/
+def outcome (flt : Exc) : Res → Except Exc PyRtC12.Bytes
+  | .ok bs => .ok bs
+  | .closed => .error .connectionClosed
+  | .tooLong => .error .messageTooLong
+  | .timeout => .error flt
+  | .fuel => .error .outOfFuel
+
+/-- the script the model is left with after a call that ended in `r` -/
+def scriptAfter (r : Res) (w : NW) : List NEv := if r = .timeout then settle w else w.script
+
+set_option maxHeartbeats 1000000 in
+/-- **`BufferedSocket.recv_size`, as regenerated from the source, is the model's `recvSize`** on the model's network: for
+    every object state, every script (chunks, socket timeouts, deadline expiries, other OSErrors of the socket), every
+    `size`, every timeout argument (omitted, `None`, `0`, or positive and within the clock's jump) and every loop fuel
+    `≥ measure + 2` the call returns / raises what the model says (a fault surfaces as `Timeout` or as the socket's own
+    OSError; no `outOfFuel`: the loop terminates), leaves `rbuf` as the model says and nothing else changed, and has
+    consumed the script as the model says. -/
+theorem src_recv_size_eq_model (J : Int) (cfg : Cfg) (st : BufferedSocket.St Int) (w : NW) (size : Nat)
+    (targ : Option (Option Int)) (lfuel : Nat)
+    (hlate : w.late = false) (hto : TOk J (orDefault targ st.timeout)) (hrs : st.recvsize = (cfg.recvsize : Int))
+    (hpos : 0 < cfg.recvsize) (hf : measure (er w.script) + 2 ≤ lfuel) :
+    ∃ w', BufferedSocket.recv_size (mnet J) lfuel st (size : Int) targ w
+        = (outcome (callerFault w.script) (recvSize cfg size ⟨st.rbuf, er w.script⟩).1,
+           { st with rbuf := (recvSize cfg size ⟨st.rbuf, er w.script⟩).2.rbuf }, w') ∧
+      er (scriptAfter (recvSize cfg size ⟨st.rbuf, er w.script⟩).1 w') = (recvSize cfg size ⟨st.rbuf, er w.script⟩).2.script := by
+  unfold BufferedSocket.recv_size runMethod BufferedSocket.recv_size.body recvSize
+  by_cases hb : st.rbuf = []
+  · -- the buffer is empty: `nxt = self.sock.recv(self._recvsize)`
+    have hspec := netRecv_spec cfg.recvsize w.script
+    simp only [hb, ne_eq, not_true_eq_false, if_false]
+    cases hsr : sockRecv cfg.recvsize (er w.script) with
+    | timeout r =>
+      rw [hsr] at hspec
+      obtain ⟨w', hw1, hw2, hw3⟩ := hspec
+      refine ⟨w', ?_, ?_⟩
+      · rcases callerFault_of_raw w.script with ⟨ha, hb2⟩ | ⟨t, ha, hb2⟩
+        · simp [Blk.seq, Blk.assign, Blk.call, Blk.tryExcept, Blk.ite, Blk.raise, mnet_time, mnet_settimeout, mnet_recv,
+            truthy, hb, hlate, hrs, hw1, ha, hb2, finishMethod, outcome, Exc.isSockTimeout, Exc.isException, join]
+        · simp [Blk.seq, Blk.assign, Blk.call, Blk.tryExcept, Blk.ite, Blk.raise, mnet_time, mnet_settimeout, mnet_recv,
+            truthy, hb, hlate, hrs, hw1, ha, hb2, finishMethod, outcome, Exc.isSockTimeout, Exc.isException, join]
+      · simp [scriptAfter, settle, hw3, hw2]
+    | data d r =>
+      rw [hsr] at hspec
+      obtain ⟨w1, hw1, hw2, hw3, hw4⟩ := hspec
+      obtain ⟨q1, _, q3, q4⟩ := sockRecv_data hsr
+      subst hw2
+      have hne := recvSizeLoop_ne_fuel cfg.recvsize size hpos d (er w1.script)
+        (fun hd => by have := q3 hpos hd; rw [q1, hd] at this; simpa using this)
+      have hmono := recvSizeLoop_mono cfg.recvsize size _ _ _ _ _ hne (lfuel - (measure (er w1.script) + 2))
+      rw [show measure (er w1.script) + 2 + (lfuel - (measure (er w1.script) + 2)) = lfuel by omega] at hmono
+      simp only []
+      rw [← hmono]
+      simp [Blk.seq, Blk.assign, Blk.call, Blk.tryExcept, Blk.ite, mnet_time, mnet_settimeout, mnet_recv, truthy, hb, hlate,
+        hrs, hw1]
+      generalize hF : (Fr.mk _ _ _ : RsFr) = F
+      have key := rs_loop J cfg.recvsize size _ hto lfuel lfuel F 0 [] d (er w1.script)
+        (by subst hF; exact hrs) (by subst hF; rfl) (by subst hF; rfl) (by subst hF; rfl) (by subst hF; rfl)
+        (by subst hF; exact hw3) (by subst hF; rfl) (by subst hF; rfl) (by subst hF; rfl)
+      have hFs : F.self = st := by subst hF; rfl
+      have hFz : F.loc.size = (size : Int) := by subst hF; rfl
+      have hFw : F.w = w1 := by subst hF; rfl
+      rw [hFs, hFz, hFw, hw4.1] at key
+      clear hFs hFz hFw hF
+      generalize Blk.whileLoop _ _ _ lfuel F = O at key ⊢
+      obtain ⟨o, F'⟩ := O
+      have hraw := callerFault_of_raw w.script
+      cases hm : recvSizeLoop cfg.recvsize size lfuel [] 0 d (er w1.script) with
+      | mk r m =>
+        rw [hm] at key hmono
+        simp only [RsLoopPost] at key
+        obtain ⟨k1, k2, k3⟩ := key
+        cases r with
+        | fuel => exact absurd (by rw [← hmono]) hne
+        | tooLong => exact k3.elim
+        | closed =>
+          obtain ⟨k3, k4, k5⟩ := k3
+          subst k3
+          refine ⟨F'.w, ?_, ?_⟩
+          · simp [finishMethod, outcome, Blk.seq, Blk.assign, Blk.raise, Exc.isSockTimeout, Exc.isException, k1, k4, hrs]
+          · simp [scriptAfter, k5]
+        | timeout =>
+          obtain ⟨k3, k4, k5⟩ := k3
+          subst k3
+          refine ⟨F'.w, ?_, ?_⟩
+          · rcases hraw with ⟨ha, hb2⟩ | ⟨t, ha, hb2⟩
+            · simp [finishMethod, outcome, Blk.seq, Blk.assign, Blk.raise, Exc.isSockTimeout, Exc.isException, k1, k4, hrs, ha, hb2, hb]
+            · simp [finishMethod, outcome, Blk.seq, Blk.assign, Blk.raise, Exc.isSockTimeout, Exc.isException, k1, k4, hrs, ha, hb2, hb]
+          · simp [scriptAfter, k5]
+        | ok bs =>
+          obtain ⟨k3, k4, k5, k6, k7⟩ := k3
+          subst k3
+          refine ⟨F'.w, ?_, ?_⟩
+          · by_cases he : F'.loc.total_bytes - F'.loc.size = 0
+            · simp [finishMethod, outcome, Blk.seq, Blk.assign, Blk.skip, Blk.ret, k1, k6, k7, hrs, he, join_snoc]
+            · simp [finishMethod, outcome, Blk.seq, Blk.assign, Blk.skip, Blk.ret, k1, k6, k7, hrs, he, join_snoc]
+          · simp [scriptAfter, k4]
+  · have hne := recvSizeLoop_ne_fuel cfg.recvsize size hpos st.rbuf (er w.script) (fun h => absurd h hb)
+    have hmono := recvSizeLoop_mono cfg.recvsize size _ _ _ _ _ hne (lfuel - (measure (er w.script) + 2))
+    rw [show measure (er w.script) + 2 + (lfuel - (measure (er w.script) + 2)) = lfuel by omega] at hmono
+    simp only [hb, ne_eq, not_false_eq_true, if_true]
+    rw [← hmono]
+    simp [Blk.seq, Blk.assign, Blk.call, Blk.tryExcept, Blk.ite, mnet_time, mnet_settimeout, truthy, hb, hlate]
+    generalize hF : (Fr.mk _ _ _ : RsFr) = F
+    have key := rs_loop J cfg.recvsize size _ hto lfuel lfuel F 0 [] st.rbuf (er w.script)
+      (by subst hF; exact hrs) (by subst hF; rfl) (by subst hF; rfl) (by subst hF; rfl) (by subst hF; rfl)
+      (by subst hF; simp [WInv, hlate]) (by subst hF; rfl) (by subst hF; rfl) (by subst hF; rfl)
+    have hFs : F.self = st := by subst hF; rfl
+    have hFz : F.loc.size = (size : Int) := by subst hF; rfl
+    have hFw : F.w = w := by subst hF; rfl
+    rw [hFs, hFz, hFw] at key
+    clear hFs hFz hFw hF
+    generalize Blk.whileLoop _ _ _ lfuel F = O at key ⊢
+    obtain ⟨o, F'⟩ := O
+    have hraw := callerFault_of_raw w.script
+    cases hm : recvSizeLoop cfg.recvsize size lfuel [] 0 st.rbuf (er w.script) with
+    | mk r m =>
+      rw [hm] at key hmono
+      simp only [RsLoopPost] at key
+      obtain ⟨k1, k2, k3⟩ := key
+      cases r with
+      | fuel => exact absurd (by rw [← hmono]) hne
+      | tooLong => exact k3.elim
+      | closed =>
+        obtain ⟨k3, k4, k5⟩ := k3
+        subst k3
+        refine ⟨F'.w, ?_, ?_⟩
+        · simp [finishMethod, outcome, Blk.seq, Blk.assign, Blk.raise, Exc.isSockTimeout, Exc.isException, k1, k4, hrs]
+        · simp [scriptAfter, k5]
+      | timeout =>
+        obtain ⟨k3, k4, k5⟩ := k3
+        subst k3
+        refine ⟨F'.w, ?_, ?_⟩
+        · rcases hraw with ⟨ha, hb2⟩ | ⟨t, ha, hb2⟩
+          · simp [finishMethod, outcome, Blk.seq, Blk.assign, Blk.raise, Exc.isSockTimeout, Exc.isException, k1, k4, hrs, ha, hb2]
+          · simp [finishMethod, outcome, Blk.seq, Blk.assign, Blk.raise, Exc.isSockTimeout, Exc.isException, k1, k4, hrs, ha, hb2]
+        · simp [scriptAfter, k5]
+      | ok bs =>
+        obtain ⟨k3, k4, k5, k6, k7⟩ := k3
+        subst k3
+        refine ⟨F'.w, ?_, ?_⟩
+        · by_cases he : F'.loc.total_bytes - F'.loc.size = 0
+          · simp [finishMethod, outcome, Blk.seq, Blk.assign, Blk.skip, Blk.ret, k1, k6, k7, hrs, he, join_snoc]
+          · simp [finishMethod, outcome, Blk.seq, Blk.assign, Blk.skip, Blk.ret, k1, k6, k7, hrs, he, join_snoc]
+        · simp [scriptAfter, k4]
+
 end C12
